@@ -63,9 +63,13 @@ func normDep(d *dependency.Dependency) string {
 			if p.Version != nil {
 				n.HasVer, n.Op, n.Ver = true, p.Version.Operator, p.Version.Number
 			}
-			if p.Architectures != nil && len(p.Architectures.Architectures) > 0 {
+			if p.Architectures != nil {
+				// the negation flag is compared even on an empty list: a value
+				// that carries it cannot be told apart from its rendering otherwise
 				n.Not = p.Architectures.Not
-				n.Archs = p.Architectures.Architectures
+				if len(p.Architectures.Architectures) > 0 {
+					n.Archs = p.Architectures.Architectures
+				}
 			}
 			for _, s := range p.StageSets {
 				n.Stages = append(n.Stages, append([]dependency.Stage{}, s.Stages...))
